@@ -10,7 +10,7 @@ import Mathlib.Tactic.LinearCombination
 -/
 set_option linter.unusedSimpArgs false
 set_option linter.unusedVariables false
-namespace Apd
+namespace Apd.QuoL
 open Apd Apd.Oracle Cond
 
 /-! ## flag projections -/
@@ -759,4 +759,4 @@ theorem quo_cross (P X Y : Nat) (hP : 1 ≤ P) (hX : 0 < X) (hY : 0 < Y) (k : Na
     - ((dv : Int) * nk * 10 ^ k) * H1
 
 
-end Apd
+end Apd.QuoL
